@@ -7,10 +7,12 @@ All theorems are about `processRq` / `negotiateOne`, the transcription of
 (any number of contexts, any strings), every configuration, every registry contents and every
 user-supplied access-control / negotiation policy.
 
-The one clause the code as found does not satisfy — a protocol-version mismatch is answered with
-service-user / no-reason-given instead of service-provider(ACSE) / protocol-version-not-supported —
-is isolated in `Variant`: `reject_protocol_version` is proved for the repaired variant and
-`shipped_protocol_version_reason_not_matching` proves the negation for the code as shipped.
+The one clause the code as found did not satisfy — a protocol-version mismatch was answered with
+service-user / no-reason-given instead of service-provider(ACSE) / protocol-version-not-supported
+(repaired in /repo by "fix: reject an unsupported protocol version with the matching
+A-ASSOCIATE-RJ reason") — is isolated in `Variant`: `reject_protocol_version` is proved for the
+repaired variant (= the code now) and `shipped_protocol_version_reason_not_matching` proves the
+negation for the code as originally shipped.
 -/
 namespace Dicom.Assoc
 
